@@ -11,7 +11,7 @@
 (* The POSTCONDITION requires that the whole trace was consumed; the       *)
 (* runner decides the exit status from the JUDGE lines.                    *)
 (***************************************************************************)
-EXTENDS TauRule, TauKnown, Json, IOUtils, TLC, SequencesExt
+EXTENDS TauRule, TauKnown, Json, IOUtils, TLC
 
 Rec == ndJsonDeserialize(IOEnv.TRACE)
 
@@ -29,7 +29,7 @@ Good == nbad' = nbad /\ UNCHANGED cl
 (* rule: which clause of the specification rejected the event *)
 Bad(rule, info) ==
   /\ PrintT("JUDGE " \o ToJson([l |-> l, cl |-> cl, rule |-> rule, info |-> info,
-                                 devs |-> SetToSeq(Devs(cur))]))
+                                 devs |-> SetSeq(Devs(cur))]))
   /\ nbad' = nbad + 1 /\ UNCHANGED cl
 
 TInit == RInit /\ l = 1 /\ cl = 0 /\ nbad = 0
